@@ -1548,7 +1548,7 @@ func HarnessEntity() {
 		data = append(data, &schema_j5pb.ObjectProperty{Name: []string{"name", "count"}[i], Schema: verifField([]int{fString, fInt32}[i])})
 	}
 	nStatus := rng(1, "statuses", 1, 3, 2)
-	statusNames := []string{"ACTIVE", "DONE", "GONE"}
+	statusNames := []string{"ACTIVE", "INACTIVE", "GONE"} // one name is a suffix of another
 	status := []*schema_j5pb.Enum_Option{}
 	for i := 0; i < nStatus; i++ {
 		status = append(status, &schema_j5pb.Enum_Option{Name: statusNames[i]})
@@ -1588,7 +1588,8 @@ func HarnessEntity() {
 	if flag(5, "query", false) {
 		ent.Query = &sourcedef_j5pb.EntityQuery{EventsInGet: flag(5, "eventsInGet", false)}
 		if flag(5, "defaultFilter", false) {
-			ent.Query.DefaultStatusFilter = []string{"ACTIVE"}
+			// the status declared last (INACTIVE when two are declared)
+			ent.Query.DefaultStatusFilter = []string{statusNames[nStatus-1]}
 		}
 	}
 	src := verifSourceFile(&sourcedef_j5pb.RootElement{Type: &sourcedef_j5pb.RootElement_Entity{Entity: ent}})
@@ -1648,6 +1649,18 @@ func HarnessEntity() {
 		verifAssert(fo != nil && fo.GetObject() != nil && fo.GetObject().Flatten, "keys-are-flattened")
 	}
 	verifAssert(mState.Field[2].GetTypeName() == ".a.v1."+camel+"Data" && mState.Field[3].GetTypeName() == ".a.v1."+camel+"Status", "data-and-status-refs")
+	// the default status filter of the query names exactly the declared status
+	if lc, _ := proto.GetExtension(mState.Field[3].Options, list_j5pb.E_Field).(*list_j5pb.FieldConstraint); true {
+		var got []string
+		if lc != nil && lc.GetEnum() != nil && lc.GetEnum().Filtering != nil {
+			got = lc.GetEnum().Filtering.DefaultFilters
+		}
+		if ent.Query != nil && len(ent.Query.DefaultStatusFilter) == 1 {
+			verifAssert(len(got) == 1 && got[0] == screaming+"_STATUS_"+ent.Query.DefaultStatusFilter[0], "default-status-filter-names-the-declared-status")
+		} else {
+			verifAssert(len(got) == 0, "no-default-status-filter-invented")
+		}
+	}
 	verifAssert(mEvent.Field[2].GetTypeName() == ".a.v1."+camel+"EventType", "event-oneof-ref")
 	// keys / data field lists
 	verifAssert(len(mKeys.Field) == nKeys && len(mData.Field) == nData, "keys-and-data-fields")
